@@ -153,11 +153,28 @@ fn skip_powtbl(l: &[i64], pos: &mut usize) -> Option<()> {
     Some(())
 }
 
-// read a getter twice, as the property demands that reading never changes a later read
-fn twice<T: Payload, G: Getter<T, E> + ?Sized>(g: &G) -> Vec<i64> {
+// read a getter twice, as the property demands that reading never changes a later read; then call the
+// (stateless) stream's update(), which must succeed and must not change what get() returns.
+// Deviations are reported by markers the model never produces: 96 e = update() returned Err(e),
+// 95 = get() after update() differs from get() before it.
+pub const W_UPD_ERR: i64 = 96;
+pub const W_UPD_CHANGED: i64 = 95;
+fn twice<T: Payload, G: Getter<T, E> + ?Sized>(g: &mut G) -> Vec<i64> {
     let mut out = Vec::new();
     enc_out(&g.get(), &mut out);
-    enc_out(&g.get(), &mut out);
+    let mut second = Vec::new();
+    enc_out(&g.get(), &mut second);
+    let first = out.clone();
+    out.extend(second);
+    if let Err(e) = g.update() {
+        out.push(W_UPD_ERR);
+        out.push(enc_err(e));
+    }
+    let mut third = Vec::new();
+    enc_out(&g.get(), &mut third);
+    if third != first {
+        out.push(W_UPD_CHANGED);
+    }
     out
 }
 
@@ -182,13 +199,13 @@ macro_rules! by_arity {
     };
 }
 fn sum_n<T: Payload + AddAssign + Copy, const N: usize>(ins: &[Output<T, E>]) -> Vec<i64> {
-    twice(&SumStream::new(dyn_inputs::<T, N>(ins)))
+    twice(&mut SumStream::new(dyn_inputs::<T, N>(ins)))
 }
 fn prod_n<T: Payload + MulAssign + Copy, const N: usize>(ins: &[Output<T, E>]) -> Vec<i64> {
-    twice(&ProductStream::new(dyn_inputs::<T, N>(ins)))
+    twice(&mut ProductStream::new(dyn_inputs::<T, N>(ins)))
 }
 fn latest_n<T: Payload, const N: usize>(ins: &[Output<T, E>]) -> Vec<i64> {
-    twice(&Latest::new(dyn_inputs::<T, N>(ins)))
+    twice(&mut Latest::new(dyn_inputs::<T, N>(ins)))
 }
 
 fn comb_arith<T>(comb: i64, n: usize, l: &[i64], pos: &mut usize) -> Option<Vec<i64>>
@@ -209,10 +226,10 @@ where
             let a = scripted(ins[0].clone());
             let b = scripted(ins[1].clone());
             match comb {
-                3 => twice(&Sum2::new(a, b)),
-                4 => twice(&Product2::new(a, b)),
-                5 => twice(&DifferenceStream::new(a, b)),
-                _ => twice(&QuotientStream::new(a, b)),
+                3 => twice(&mut Sum2::new(a, b)),
+                4 => twice(&mut Product2::new(a, b)),
+                5 => twice(&mut DifferenceStream::new(a, b)),
+                _ => twice(&mut QuotientStream::new(a, b)),
             }
         }
     })
@@ -238,18 +255,18 @@ pub fn run_comb_case(l: &[i64]) -> Vec<i64> {
                 skip_powtbl(l, p)?;
                 let a = scripted(dec_out::<f32>(l, p)?);
                 let b = scripted(dec_out::<f32>(l, p)?);
-                twice(&ExponentStream::new(a, b))
+                twice(&mut ExponentStream::new(a, b))
             }
             8 => {
                 let c = scripted(dec_out::<bool>(l, p)?);
                 let i = scripted(dec_out::<f32>(l, p)?);
-                twice(&IfStream::new(c, i))
+                twice(&mut IfStream::new(c, i))
             }
             9 => {
                 let c = scripted(dec_out::<bool>(l, p)?);
                 let t = scripted(dec_out::<f32>(l, p)?);
                 let f = scripted(dec_out::<f32>(l, p)?);
-                twice(&IfElseStream::new(c, t, f))
+                twice(&mut IfElseStream::new(c, t, f))
             }
             13 => {
                 let mut ins = Vec::new();
@@ -262,34 +279,53 @@ pub fn run_comb_case(l: &[i64]) -> Vec<i64> {
                 let i = scripted(dec_out::<f32>(l, p)?);
                 let tg = rc_ref_cell_reference(ScriptedTime { cur: dec_tout(l, p)? });
                 let lim = next(l, p)?;
-                twice(&Expirer::new(i, tg, Time(lim)))
+                twice(&mut Expirer::new(i, tg, Time(lim)))
             }
             15 => {
                 let i = scripted(dec_out::<f32>(l, p)?);
-                twice(&NoneToError::new(i))
+                twice(&mut NoneToError::new(i))
             }
             16 => {
                 let i = scripted(dec_out::<f32>(l, p)?);
                 let tg = rc_ref_cell_reference(ScriptedTime { cur: dec_tout(l, p)? });
                 let v = f32::dec(l, p)?;
-                twice(&NoneToValue::new(i, tg, v))
+                twice(&mut NoneToValue::new(i, tg, v))
             }
             17 => {
                 let g = NoneGetter::new();
                 let mut out = Vec::new();
+                let mut g = g;
                 enc_out::<f32>(&<NoneGetter as Getter<f32, E>>::get(&g), &mut out);
                 enc_out::<f32>(&<NoneGetter as Getter<f32, E>>::get(&g), &mut out);
+                if let Err(e) = <NoneGetter as Updatable<E>>::update(&mut g) {
+                    out.push(W_UPD_ERR);
+                    out.push(enc_err(e));
+                }
+                // Time itself is a TimeGetter whose update() does nothing
+                let mut t = Time::new(l[l.len() - 1]);
+                let before = <Time as TimeGetter<E>>::get(&t);
+                if let Err(e) = <Time as Updatable<E>>::update(&mut t) {
+                    out.push(W_UPD_ERR);
+                    out.push(enc_err(e));
+                }
+                if before != Ok(Time::new(l[l.len() - 1])) || <Time as TimeGetter<E>>::get(&t) != before {
+                    out.push(W_UPD_CHANGED);
+                }
                 out
             }
             22 => {
                 let tg = rc_ref_cell_reference(ScriptedTime { cur: dec_tout(l, p)? });
                 let v = f32::dec(l, p)?;
-                twice(&ConstantGetter::new(tg, v))
+                twice(&mut ConstantGetter::new(tg, v))
             }
             23 => {
                 let i = scripted(dec_out::<f32>(l, p)?);
-                let tg = TimeGetterFromGetter::new(i);
+                let mut tg = TimeGetterFromGetter::new(i);
                 let mut out = Vec::new();
+                if let Err(e) = tg.update() {
+                    out.push(W_UPD_ERR);
+                    out.push(enc_err(e));
+                }
                 for _ in 0..2 {
                     match tg.get() {
                         Err(e) => {
@@ -306,21 +342,21 @@ pub fn run_comb_case(l: &[i64]) -> Vec<i64> {
             }
             12 => {
                 let a = scripted(dec_out::<bool>(l, p)?);
-                twice(&NotStream::new(a))
+                twice(&mut NotStream::new(a))
             }
             10 | 11 | 18..=21 => {
                 let a = scripted(dec_out::<bool>(l, p)?);
                 let b = scripted(dec_out::<bool>(l, p)?);
                 match comb {
-                    10 => twice(&AndStream::new(a, b)),
-                    11 => twice(&OrStream::new(a, b)),
-                    18 => twice(&NotStream::new(rc_ref_cell_reference(AndStream::new(a, b)))),
-                    19 => twice(&OrStream::new(
+                    10 => twice(&mut AndStream::new(a, b)),
+                    11 => twice(&mut OrStream::new(a, b)),
+                    18 => twice(&mut NotStream::new(rc_ref_cell_reference(AndStream::new(a, b)))),
+                    19 => twice(&mut OrStream::new(
                         rc_ref_cell_reference(NotStream::new(a)),
                         rc_ref_cell_reference(NotStream::new(b)),
                     )),
-                    20 => twice(&NotStream::new(rc_ref_cell_reference(OrStream::new(a, b)))),
-                    _ => twice(&AndStream::new(
+                    20 => twice(&mut NotStream::new(rc_ref_cell_reference(OrStream::new(a, b)))),
+                    _ => twice(&mut AndStream::new(
                         rc_ref_cell_reference(NotStream::new(a)),
                         rc_ref_cell_reference(NotStream::new(b)),
                     )),
